@@ -52,7 +52,7 @@ type grid struct {
 	seed int64 // 0: points at the exact cell centres
 }
 
-func (g grid) side() int { return 1 << g.nb }
+func (g grid) side() int             { return 1 << g.nb }
 func (g grid) lonEdge(e int) float64 { return -180 + 360*float64(e)/float64(g.side()) }
 func (g grid) latEdge(e int) float64 { return -90 + 180*float64(e)/float64(g.side()) }
 func (g grid) lonCell(x int) float64 { return -180 + 360*(float64(x)+0.5)/float64(g.side()) }
@@ -75,8 +75,12 @@ func (g grid) frac(x, y, dim int) float64 {
 	}
 	return 0.15 + 0.7*float64((h>>8)%1001)/1000
 }
-func (g grid) lonPoint(p point) float64 { return -180 + 360*(float64(p.X)+g.frac(p.X, p.Y, 0))/float64(g.side()) }
-func (g grid) latPoint(p point) float64 { return -90 + 180*(float64(p.Y)+g.frac(p.X, p.Y, 1))/float64(g.side()) }
+func (g grid) lonPoint(p point) float64 {
+	return -180 + 360*(float64(p.X)+g.frac(p.X, p.Y, 0))/float64(g.side())
+}
+func (g grid) latPoint(p point) float64 {
+	return -90 + 180*(float64(p.Y)+g.frac(p.X, p.Y, 1))/float64(g.side())
+}
 
 type point struct{ X, Y int }
 
